@@ -52,6 +52,9 @@ package stats
 //@        && result.remoteInboundFirstSequenceNumber == latestStats.remoteInboundFirstSequenceNumber && result.lastSenderReports == latestStats.lastSenderReports
 //@        && result.lastReceiverReferenceTimes == latestStats.lastReceiverReferenceTimes
 //@
+//@ # index of the last of the first n reception-report blocks that is about ssrc (-1: none)
+//@ def rec lastBlockFor(reports []rtcp.ReceptionReport, ssrc uint32, n int) int := ite(n <= 0, -1, ite(reports[n - 1].SSRC == ssrc, n - 1, lastBlockFor(reports, ssrc, n - 1)))
+//@
 //@ # receiver reports: reception-report blocks about other SSRCs change nothing; a matching block sets the remote figures by the WebRTC-stats formulas
 //@ func (*recorder).recordIncomingRR
 //@   requires config: r.maxLastSenderReports >= 0
@@ -68,14 +71,15 @@ package stats
 //@        result.RemoteInboundRTPStreamStats.PacketsReceived == uint64(ite(int64(reports[0].LastSequenceNumber) - latestStats.remoteInboundFirstSequenceNumber + 1 - int64(reports[0].TotalLost) > 0,
 //@             int64(reports[0].LastSequenceNumber) - latestStats.remoteInboundFirstSequenceNumber + 1 - int64(reports[0].TotalLost), 0))
 //@   # any number of blocks in any order: the last block about this SSRC decides the loss figures, wherever the foreign blocks sit
-//@   ensures last_matching_report_wins: forall j int :: 0 <= j && j < len(reports) && reports[j].SSRC == r.ssrc && (forall k int :: j < k && k < len(reports) ==> reports[k].SSRC != r.ssrc) ==>
-//@           result.RemoteInboundRTPStreamStats.PacketsLost == int64(reports[j].TotalLost)
-//@        && result.RemoteInboundRTPStreamStats.FractionLost == float64(reports[j].FractionLost) / 256.0
-//@        && result.RemoteInboundRTPStreamStats.Jitter == float64(reports[j].Jitter) / r.clockRate
-//@   loop 1 invariant last_done: forall j int :: 0 <= j && j <= rangeindex && reports[j].SSRC == r.ssrc && (forall k int :: j < k && k <= rangeindex ==> reports[k].SSRC != r.ssrc) ==>
-//@           latestStats.RemoteInboundRTPStreamStats.PacketsLost == int64(reports[j].TotalLost)
-//@        && latestStats.RemoteInboundRTPStreamStats.FractionLost == float64(reports[j].FractionLost) / 256.0
-//@        && latestStats.RemoteInboundRTPStreamStats.Jitter == float64(reports[j].Jitter) / r.clockRate
+//@   ensures last_matching_report_wins: lastBlockFor(reports, r.ssrc, len(reports)) >= 0 ==>
+//@           result.RemoteInboundRTPStreamStats.PacketsLost == int64(reports[lastBlockFor(reports, r.ssrc, len(reports))].TotalLost)
+//@        && result.RemoteInboundRTPStreamStats.FractionLost == float64(reports[lastBlockFor(reports, r.ssrc, len(reports))].FractionLost) / 256.0
+//@        && result.RemoteInboundRTPStreamStats.Jitter == float64(reports[lastBlockFor(reports, r.ssrc, len(reports))].Jitter) / r.clockRate
+//@   loop 1 invariant last_done: -1 <= lastBlockFor(reports, r.ssrc, rangeindex + 1) && lastBlockFor(reports, r.ssrc, rangeindex + 1) <= rangeindex
+//@        && (lastBlockFor(reports, r.ssrc, rangeindex + 1) >= 0 ==>
+//@           latestStats.RemoteInboundRTPStreamStats.PacketsLost == int64(reports[lastBlockFor(reports, r.ssrc, rangeindex + 1)].TotalLost)
+//@        && latestStats.RemoteInboundRTPStreamStats.FractionLost == float64(reports[lastBlockFor(reports, r.ssrc, rangeindex + 1)].FractionLost) / 256.0
+//@        && latestStats.RemoteInboundRTPStreamStats.Jitter == float64(reports[lastBlockFor(reports, r.ssrc, rangeindex + 1)].Jitter) / r.clockRate)
 //@   loop 1 invariant foreign: (forall i int :: 0 <= i && i < len(reports) ==> reports[i].SSRC != r.ssrc) ==> latestStats == old(latestStats)
 //@   loop 1 invariant local: latestStats.InboundRTPStreamStats == old(latestStats.InboundRTPStreamStats) && latestStats.OutboundRTPStreamStats == old(latestStats.OutboundRTPStreamStats)
 //@        && latestStats.RemoteOutboundRTPStreamStats == old(latestStats.RemoteOutboundRTPStreamStats) && latestStats.inboundSequencerNumber == old(latestStats.inboundSequencerNumber)
